@@ -4,7 +4,7 @@ from fractions import Fraction
 import z3
 
 from .values import *      # noqa
-from .values import _num
+from .values import _num, MODE
 from .arrays import Arr, const_arr, sym_arr, broadcast_shapes, dim_eq, cast_elem
 from . import symex
 from .symex import ExtRef, Builtin, BoundMethod, PyException, DType, SymRange, Obj, SymList
@@ -31,6 +31,9 @@ def dtype_name(d):
 def ext_attr(it, o, name):
     d = o.dotted + "." + name
     if d == "numpy.pi":
+        if MODE["log"]:
+            from .logmono import LogVal, LG
+            return LogVal(LG("PI"))
         return PI
     if d == "numpy.newaxis":
         return None
@@ -538,15 +541,61 @@ def sigma(it, ranges, body_fn, label="sum"):
     return _sigma_real(it, ranges, bvs, body, label)
 
 
+def free_consts(e, acc=None):
+    """uninterpreted constants (arity 0) occurring in a z3 term"""
+    if acc is None:
+        acc = {}
+    seen = set()
+    stack = [e]
+    while stack:
+        t = stack.pop()
+        if t.get_id() in seen:
+            continue
+        seen.add(t.get_id())
+        if z3.is_const(t) and t.decl().kind() == z3.Z3_OP_UNINTERPRETED:
+            acc[str(t)] = t
+        else:
+            stack.extend(t.children())
+    return acc
+
+
 def _sigma_real(it, ranges, bvs, body, label):
+    """hash-consed Sigma term: alpha-equivalent sums over the same ranges are the SAME uninterpreted function applied
+    to their free variables (so syntactically equal sums are equal by congruence; everything else needs a Sigma rule)"""
+    import hashlib
     if is_conc(body) and _num(body) == 0:
         return 0
-    c = z3.Real(fresh_name("S_" + label))
-    st = SumTerm(str(c), [(v, lo, hi) for v, (lo, hi) in zip(bvs, ranges)], body, c)
+    body = zr(body)
+    canon = [z3.Int("b!%d" % k) for k in range(len(bvs))]
+    sub = list(zip(bvs, canon))
+    cbody = z3.simplify(z3.substitute(body, *sub))
+    cr = []
+    for (lo, hi) in ranges:
+        lo_t, hi_t = zi(lo) if not is_z3(lo) else lo, zi(hi) if not is_z3(hi) else hi
+        cr.append((z3.simplify(z3.substitute(lo_t, *sub)), z3.simplify(z3.substitute(hi_t, *sub))))
+    fv = {}
+    free_consts(cbody, fv)
+    for lo_t, hi_t in cr:
+        free_consts(lo_t, fv)
+        free_consts(hi_t, fv)
+    for c in canon:
+        fv.pop(str(c), None)
+    names = sorted(fv)
+    key = cbody.sexpr() + "|" + "|".join(a.sexpr() + ":" + b.sexpr() for a, b in cr)
+    h = hashlib.sha256(key.encode()).hexdigest()[:12]
+    fname = "Sum_%s" % h
+    args = [fv[n] for n in names]
+    if args:
+        F = z3.Function(fname, *([a.sort() for a in args] + [z3.RealSort()]))
+        term = F(*args)
+    else:
+        term = z3.Real(fname)
     if not hasattr(it.ctx, "sums"):
         it.ctx.sums = {}
-    it.ctx.sums[str(c)] = st
-    return c
+    if fname not in it.ctx.sums:
+        it.ctx.sums[fname] = SumTerm(fname, [(c, lo_t, hi_t) for c, (lo_t, hi_t) in zip(canon, cr)], cbody, term)
+        it.ctx.sums[fname].params = args
+    return term
 
 
 def arr_sum(it, a, axis=None):
@@ -1135,6 +1184,11 @@ def uf1(name):
 
 
 def _uf_real(it, name, v):
+    from .logmono import LogVal
+    if isinstance(v, LogVal):
+        if name == "log10":
+            return v.L
+        raise Unsupported("%s of a log-monomial" % name)
     if isinstance(v, (Cx, Polar)):
         raise Unsupported("%s of complex" % name)
     return UF(name)(zr(v))
